@@ -91,6 +91,12 @@ def del_item(cont, name):
     cont['entries'] = [e for e in cont['entries'] if not (e[0] == 'item' and e[1] == name)]
 
 
+SYNTAX_CLASSES = ('missing-value', 'partial-packet', 'empty-loop-header', 'loop-without-values', 'unterminated-quote',
+                  'unterminated-dquote', 'missing-space', 'stray-close', 'missing-list-close', 'missing-table-close',
+                  'missing-key', 'null-key', 'unquoted-key', 'text-block-key', 'missing-table-value', 'reserved-word',
+                  'unexpected-', 'control-')
+
+
 class Case:
     def __init__(self, name, lines, code, lo, hi, content, opts=None, final_newline=True, alt_content=None, klass=None,
                  position=None):
@@ -159,6 +165,12 @@ def insertion_cases():
         if follows_original:
             mk('dup-only-name-in-loop-header', ['loop_', first_name, '1 2 3'], CIF_DUP_ITEMNAME)
         mk('invalid-only-name-in-loop-header', ['loop_', '_', '2 3'], CIF_INVALID_ITEMNAME)
+        # equivalent spellings of different lengths: composed / decomposed, and a case folding that expands
+        mk('dup-within-loop-header-nfd', ['loop_', '_caf\u00e9', '_w2', '_CAFE\u0301', '1 2 3', '4 5 6'], CIF_DUP_ITEMNAME,
+           lambda t, c: t['entries'].append(('loop', ['_caf\u00e9', '_w2'], [[u('1'), u('2')], [u('4'), u('5')]])))
+        mk('dup-within-loop-header-expanding-fold', ['loop_', '_stra\u00dfe', '_w2', '_STRASSE', '1 2 3', '4 5 6'], CIF_DUP_ITEMNAME,
+           lambda t, c: t['entries'].append(('loop', ['_stra\u00dfe', '_w2'], [[u('1'), u('2')], [u('4'), u('5')]])))
+        mk('dup-scalar-nfd', ['_dn\u00e9 1', '_DNE\u0301 2'], CIF_DUP_ITEMNAME, lambda t, c: set_item(t, '_dn\u00e9', u('1')))
         mk('dup-within-loop-header', ['loop_', '_w1', '_w2', '_W1', '1 2 3', '4 5 6'], CIF_DUP_ITEMNAME,
            lambda t, c: t['entries'].append(('loop', ['_w1', '_w2'], [[u('1'), u('2')], [u('4'), u('5')]])))
         if follows_original:
@@ -220,6 +232,13 @@ def insertion_cases():
             mk('unexpected-list', ['[1 2]'], CIF_UNEXPECTED_VALUE)
         else:
             mk('stray-close-bracket-in-loop-body', [']'], CIF_UNEXPECTED_DELIM)
+            mk('stray-close-brace-in-loop-body', ['}'], CIF_UNEXPECTED_DELIM)
+        for dn, dch in (('bracket', ']'), ('brace', '}')):
+            # a stray closing delimiter among the values of a loop is dropped; the loop body goes on
+            mk('stray-close-%s-between-packets' % dn, ['loop_', '_n1', '_n2', '1 2', dch, '3 4'], CIF_UNEXPECTED_DELIM,
+               lambda t, c: t['entries'].append(('loop', ['_n1', '_n2'], [[u('1'), u('2')], [u('3'), u('4')]])))
+            mk('stray-close-%s-inside-a-packet' % dn, ['loop_', '_n1', '_n2', '1 2', '3 %s 4' % dch], CIF_UNEXPECTED_DELIM,
+               lambda t, c: t['entries'].append(('loop', ['_n1', '_n2'], [[u('1'), u('2')], [u('3'), u('4')]])))
         mk('missing-list-close', ['_ml [p q'], CIF_MISSING_DELIM, lambda t, c: set_item(t, '_ml', ('list', (u('p'), u('q')))))
         mk('missing-table-close', ["_mt {'a':1"], CIF_MISSING_DELIM, lambda t, c: set_item(t, '_mt', ('table', (('a', u('1')),))))
         mk('missing-key', ["_mk {'a':1 stray 'b':2}"], CIF_MISSING_KEY, lambda t, c: set_item(t, '_mk', ('table', (('a', u('1')), ('b', u('2'))))))
@@ -398,6 +417,18 @@ def run_case(ctx, L, i, case, style):
             else:
                 ctx.violation('recover:%s:content' % label, 'after recovery from %s the CIF differs from what the documented action prescribes: %s' % (case.name, D.first_difference(got, want)), info)
                 return
+        # the same bytes in syntax-only mode (no target CIF): "errors in CIF syntax will be detected as normal, but some
+        # semantic errors, such as duplicate data names, frame codes, or block codes will not be detected" - judged for
+        # the classes that are plainly syntax (token and delimiter structure), not for names, codes and frame nesting
+        if case.klass.startswith(SYNTAX_CLASSES):
+            res2 = parsing.parse(L, text.encode('utf-8', 'surrogatepass'), parsing.make_opts(**case.opts), None, 'accept')
+            for k, d in res2.problems:
+                ctx.violation(k, d, info)
+            first2 = res2.errors[0][0] if res2.errors else None
+            if first2 != case.code or res2.rc != CIF_OK:
+                ctx.violation('recover:%s:syntax-only:first-code' % label, 'defect %s parsed without a target CIF: cif_parse -> %d, first reported code %r (then %r), documented %r' % (case.name, res2.rc, first2, [e[0] for e in res2.errors[1:5]], case.code), info)
+                return
+            ctx.count('syntax_only_twins_agreeing')
         ctx.count('cases_agreeing')
         ctx.add('classes', case.klass)
         ctx.add('class_positions', label)
@@ -444,7 +475,8 @@ def run(env):
             samples=res.samples, defect_classes=sorted(res.sets.get('classes', ())),
             class_position_pairs=len(res.sets.get('class_positions', ())),
             first_codes_observed=sorted(res.sets.get('first_codes', ())),
-            alternative_recovery_observed=res.count('alternative_recovery_observed'), crashes=res.crashes),
+            alternative_recovery_observed=res.count('alternative_recovery_observed'),
+            syntax_only_twins_agreeing=res.count('syntax_only_twins_agreeing'), crashes=res.crashes),
         violations=res.violations, inconclusive=inconclusive,
         assumptions=['the recovery table in vp/checks/C12.py is a faithful reading of the @page error_recovery '
                      'documentation', 'an accepted empty loop may or may not survive to the end of the parse'])
